@@ -717,8 +717,10 @@ def main(argv):
           "coverage": cov, "assumptions": assumptions, "wall_s": round(time.time() - t0, 2),
           "violations": len(final) + len(broken)}
     if not replay:
-        os.makedirs(os.path.join(VERIF, "evidence"), exist_ok=True)
-        with open(os.path.join(VERIF, "evidence", f"{pid}.json"), "w") as f:
+        # a scratch copy (VERIF_REPO, mutation trials) leaves /verif/evidence — what was covered on /repo — alone
+        evdir = os.path.join(VERIF, "evidence") if REPO == "/repo" else os.path.join(REPO, ".verif-evidence")
+        os.makedirs(evdir, exist_ok=True)
+        with open(os.path.join(evdir, f"{pid}.json"), "w") as f:
             json.dump(ev, f, indent=1)
     print(f"{pid}: {'OK' if rc == 0 else 'FAILED'} theorems={cov['discharged']}/{cov['obligations']} cases={cov['evaluations']} "
           f"nontrivial={cov['distinct_nontrivial']} wall={ev['wall_s']}s")
